@@ -563,13 +563,18 @@ def full_range_loop(lp, bounds, f=None):
     if f is not None:
         from ..cfg import loop_shape, xrender
         sh = loop_shape(f, lp)
+        if sh is not None and sh["stepped"] and sh.get("values") == "from-start" and sh["start"] is not None:
+            sc = lambda t: t.replace(" ", "").replace("(int)", "").replace("(size_t)", "")
+            for t_ in (sc(xrender(f, sh["start"], True)), sc(render(sh["start"]))):
+                if t_.endswith("-1") and t_[:-2] in bounds:
+                    return sh["var"], "down"              # for (i = N - 1; i >= 0; --i)
         if sh is not None and sh["stepped"] and sh["bound"] is not None:
             sc = lambda t: t.replace(" ", "").replace("(int)", "").replace("(size_t)", "")
             b = sc(xrender(f, sh["bound"], True))
             b0 = sc(render(sh["bound"]))
             if sh["dir"] == "up" and sh["rel"] in ("<", "!=") and sh["start"] is not None and cv(sh["start"]) == 0 and (b in bounds or b0 in bounds):
                 return sh["var"], "up"
-            if sh["dir"] == "down" and (b in bounds or b0 in bounds):
+            if sh["dir"] == "down" and sh.get("values") == "below" and (b in bounds or b0 in bounds):
                 return sh["var"], "down"
     ks = lp.get("c", [])
     if lp["k"] != "ForStmt" or ks[0] is None or ks[0]["k"] != "DeclStmt":
@@ -758,6 +763,29 @@ def run(rep, ctx):
                  "%s maps %s to %s" % (name, WHY_AXIOM[dom], WHY_AXIOM[val]),
                  "%s is filled as a map from %s to %s, expected %s to %s" %
                  (name, WHY_AXIOM.get(gd, gd), WHY_AXIOM.get(gv, gv), WHY_AXIOM[dom], WHY_AXIOM[val]))
+    # ... and every index is exported: both arrays are stored, unconditionally, in a loop over the whole variable range
+    exf = one(FE + "::ExportPreproData")
+    Tex = FuncTyper(exf, Spaces())
+    for name in ("vperm_", "vperm_inv_"):
+        stores = []
+        for n in exf.walk():
+            if (n["k"] == "BinaryOperator" and n.get("op") == "=") or (n["k"] == "CXXOperatorCallExpr" and n.get("op") == "="):
+                lhs = strip(kids(n)[0] if n["k"] == "BinaryOperator" else call_args(n)[0])
+                sb = Tex.subscript(lhs) if lhs is not None else None
+                if sb and (Tex.alias(sb[0]) or "").split(".")[-1] == name:
+                    stores.append((n, sb[1]))
+        okx, whyx = False, "%d stores of %s" % (len(stores), name)
+        if len(stores) == 1:
+            st_, ix_ = stores[0]
+            lp_ = exf.enclosing(st_, ("ForStmt", "WhileStmt", "DoStmt", "CXXForRangeStmt"))
+            fr_ = full_range_loop(lp_, NVARS, exf) if lp_ is not None and lp_["k"] in ("ForStmt", "WhileStmt") else None
+            body_ = [x for x in lp_.get("c", []) if x is not None][-1] if lp_ is not None else None
+            inner_ = {x["i"] for x in walk(body_)} if body_ is not None else set()
+            cond_ = [c_ for c_ in exf.cfg.facts_at(st_) if c_[0] in inner_]
+            okx = fr_ is not None and strip(ix_).get("declId") == fr_[0] and not cond_
+            whyx = "the store `%s` is %s" % (render(st_)[:50], "conditional" if cond_ else "not in a loop over all variable indexes (0 .. number of columns - 1)")
+        f2.check(okx, "export-total|%s" % name, short_loc(exf.loc), "%s[i] is stored for every variable index i" % name,
+                 "%s: an index that is not exported keeps the value 0 and the solution of that position is returned to the wrong column" % whyx)
     # uses of the exported arrays in the handler: typed with the *expected* spaces (so a swap shows up at the use)
     for (nm, tag), (f, a, b) in sorted(per_func_conf.items()):
         rule = f2 if tag.startswith("back") else f1
